@@ -30,7 +30,7 @@ HANDLES = ['filename', 'connection', 'cursor', 'mkcurs']
 EXCS = sorted(probes.FAULT_TYPES)
 REQUIRED = (['handle:' + h for h in HANDLES] + ['fn:todb', 'fn:appenddb', 'commit:True', 'commit:False', 'fail:none', 'fail:header',
             'fail:first-row', 'fail:last-row', 'fail:exhaustion', 'rolled-back-load-left-previous-contents', 'commit=False-invisible-until-caller-commits',
-            'roundtrip-typed-cells', 'quoted-identifiers', 'sql-statements-traced', 'schema-qualified'] + ['exc:' + e for e in EXCS])
+            'roundtrip-typed-cells', 'quoted-identifiers', 'sql-statements-traced', 'schema-qualified', 'fromdb-handle-kinds'] + ['exc:' + e for e in EXCS])
 EXHAUSTIVE = {'quick': False, 'thorough': False}   # the enumerated families are complete within their bounds, but a seeded random family is judged too
 
 CELLS = [None, 0, 1, -5, 2 ** 40, 1.5, -0.25, '', 'a', "it's", 'say "hi"', 'é€漢', 'x;y', b'', b'\x00\xff', 'NULL', ' lead']
@@ -212,9 +212,16 @@ def judge(case, ctx):
             if isinstance(got, util.Raised) or util.crows(got) != util.crows(exp):
                 out.append({'kind': 'fromdb-roundtrip-differs', 'expected': exp, 'observed': repr(got) if isinstance(got, util.Raised) else got})
             if conn is not None:
-                got2 = util.attempt_rows(lambda: petl.fromdb(conn, q))
-                if isinstance(got2, util.Raised) or util.crows(got2) != util.crows(exp):
-                    out.append({'kind': 'fromdb(connection)-roundtrip-differs', 'expected': exp, 'observed': repr(got2) if isinstance(got2, util.Raised) else got2})
+                # every handle kind fromdb accepts, two passes each
+                for hname, h in (('connection', conn), ('cursor-factory', lambda: conn.cursor()), ('cursor', conn.cursor())):
+                    v = petl.fromdb(h, q)
+                    for p_ in (1, 2):
+                        got2 = util.attempt_rows(lambda: v)
+                        if isinstance(got2, util.Raised) or util.crows(got2) != util.crows(exp):
+                            out.append({'kind': 'fromdb(%s)-roundtrip-differs' % hname, 'pass': p_, 'expected': exp,
+                                        'observed': repr(got2) if isinstance(got2, util.Raised) else got2})
+                            break
+                ctx.seen('fromdb-handle-kinds')
         if conn is not None:
             try:
                 conn.rollback()
